@@ -78,13 +78,15 @@ def run_one(ctx, A, C, p, kind, eps, suc, tol, so, bits_vec, replay_base):
     drv = ctx.driver()
     before = [c for i, c in enumerate(SESSION) if i >= len(SESSION) - 4 or (c.get("special") and i >= len(SESSION) - 60)]
     SESSION.append({"poly": list(p), "eps": eps, "suc": suc, "tolerance": tol, "signal_operator": so, "seed_bits": bits_vec})
+    pobj, pform = P.poly_form(p, (list(p), so, eps)) if not all(isinstance(x, int) for x in p) else (list(p), "int-list")
+    ctx.count("container:" + pform)
     try:
         with core.quiet(), P.forced_seed(bits_vec) as calls:
             if (eps, suc, tol) == (1e-4, 1 - 1e-4, 1e-6) and zlib.crc32(repr((list(p), so)).encode()) % 2 == 0:
                 ctx.count("settings:library-defaults")        # the documented defaults, left to the library
-                ph = A.QuantumSignalProcessingPhases(list(p), signal_operator=so)
+                ph = A.QuantumSignalProcessingPhases(pobj, signal_operator=so)
             else:
-                ph = A.QuantumSignalProcessingPhases(list(p), eps=eps, suc=suc, signal_operator=so, tolerance=tol)
+                ph = A.QuantumSignalProcessingPhases(pobj, eps=eps, suc=suc, signal_operator=so, tolerance=tol)
         out = ("ok", [float(x) for x in ph])
         core.poison(ph)          # the caller owns the returned list; the library must not have kept it
     except C.CompletionError as e:
